@@ -64,7 +64,7 @@ Qed.
 
 (* ---------------------------------------------------------------- the map is the sequential composition of the write sections *)
 (* the committed map: what the map was when the current writer (if any) came in *)
-Definition base (c : config) : map_ := match find isW (ths c) with Some t => snap t | None => mp c end.
+Definition committed (c : config) : map_ := match find isW (ths c) with Some t => snap t | None => mp c end.
 
 Lemma find_none_count (f : thread -> bool) l : length (filter f l) = 0 -> find f l = None.
 Proof. induction l as [|a l IH]; cbn [filter find]; auto. destruct (f a); cbn [length]; [lia|auto]. Qed.
@@ -91,17 +91,17 @@ Proof.
     + apply IH; auto.
 Qed.
 
-Lemma base_ok c : Inv c -> writer (lk c) = false -> base c = mp c.
+Lemma base_ok c : Inv c -> writer (lk c) = false -> committed c = mp c.
 Proof.
-  intros HI Hw. unfold base. rewrite find_none_count; auto. pose proof (i_w c HI) as E0. rewrite Hw in E0. symmetry. exact E0.
+  intros HI Hw. unfold committed. rewrite find_none_count; auto. pose proof (i_w c HI) as E0. rewrite Hw in E0. symmetry. exact E0.
 Qed.
 
 (* a step that changes only the code of thread i leaves the committed map alone *)
 Lemma base_code_step c i t t' : nth_error (ths c) i = Some t -> hold t' = hold t -> snap t' = snap t ->
   length (filter isW (ths c)) <= 1 ->
-  base {| lk := lk c; mp := mp c; ths := upd (ths c) i t' |} = base c.
+  committed {| lk := lk c; mp := mp c; ths := upd (ths c) i t' |} = committed c.
 Proof.
-  intros Hi Eh Es Hle. unfold base. cbn [ths mp]. destruct (isW t) eqn:Et.
+  intros Hi Eh Es Hle. unfold committed. cbn [ths mp]. destruct (isW t) eqn:Et.
   - destruct (find_unique isW _ i _ Hi Et Hle) as [F1 F2]. rewrite F1, F2.
     assert (isW t' = true) by (unfold isW in *; rewrite Eh; exact Et). rewrite H. congruence.
   - rewrite (find_upd_false isW _ i _ _ Hi); auto. unfold isW in *. rewrite Eh. exact Et.
@@ -110,8 +110,8 @@ Qed.
 Lemma base_exec c i t e cd rs ch l' m' t' :
   Inv c -> nth_error (ths c) i = Some t -> wl (hold t) (E e :: map E cd ++ rs) = true ->
   exec_ev (lk c) (mp c) t e cd rs ch = (l', m', t') ->
-  base {| lk := l'; mp := m'; ths := upd (ths c) i t' |} =
-  apply_all (match e with Rel W => done_ t | _ => [] end) (base c).
+  committed {| lk := l'; mp := m'; ths := upd (ths c) i t' |} =
+  apply_all (match e with Rel W => done_ t | _ => [] end) (committed c).
 Proof.
   intros HI Hi Hwl Hex0. pose proof HI as [Ht Hr Hw Hex].
   assert (Hti : tok (mp c) t) by (rewrite Forall_forall in Ht; apply Ht; eapply nth_error_In; eauto).
@@ -120,28 +120,28 @@ Proof.
   destruct t as [cu rs0 h sn se dn]. cbn [hold snap seen done_] in *.
   destruct e as [mo|mo|lo|lo|]; cbn [wl acc_ok] in Hwl; cbn [exec_ev hold snap seen done_] in Hex0.
   - destruct h; [discriminate|]. destruct mo; cbn [exec_ev] in Hex0.
-    + revert Hex0. destruct (negb (writer (lk c))); intros Hex0; inversion Hex0; subst; clear Hex0; unfold base; cbn [ths mp apply_all fold_left].
+    + revert Hex0. destruct (negb (writer (lk c))); intros Hex0; inversion Hex0; subst; clear Hex0; unfold committed; cbn [ths mp apply_all fold_left].
       * rewrite (find_upd_false isW _ i _ _ Hi); auto.
       * rewrite (upd_same _ _ _ Hi). reflexivity.
-    + revert Hex0. destruct (negb (writer (lk c)) && (readers (lk c) =? 0)) eqn:Ew; intros Hex0; inversion Hex0; subst; clear Hex0; unfold base; cbn [ths mp apply_all fold_left].
+    + revert Hex0. destruct (negb (writer (lk c)) && (readers (lk c) =? 0)) eqn:Ew; intros Hex0; inversion Hex0; subst; clear Hex0; unfold committed; cbn [ths mp apply_all fold_left].
       * apply andb_prop in Ew. destruct Ew as [Ew _]. apply negb_true_iff in Ew. rewrite Ew in Hw.
         rewrite (find_upd_new isW _ i _ _ Hi); auto. cbn [snap]. rewrite find_none_count; auto.
       * rewrite (upd_same _ _ _ Hi). reflexivity.
-  - destruct h as [[|]|]; destruct mo; try discriminate; inversion Hex0; subst; clear Hex0; unfold base; cbn [ths mp].
+  - destruct h as [[|]|]; destruct mo; try discriminate; inversion Hex0; subst; clear Hex0; unfold committed; cbn [ths mp].
     + rewrite (find_upd_false isW _ i _ _ Hi); auto.
     + destruct (find_unique isW _ i _ Hi eq_refl Hle) as [F1 F2]. rewrite F1, F2. cbn [isW hold snap]. exact Hg.
   - apply andb_prop in Hwl as [Ha Hwl]. destruct h as [mh|]; [|discriminate]. inversion Hex0; subst; clear Hex0.
-    unfold base; cbn [ths mp apply_all fold_left]. destruct mh.
+    unfold committed; cbn [ths mp apply_all fold_left]. destruct mh.
     + rewrite (find_upd_false isW _ i _ _ Hi); auto.
     + destruct (find_unique isW _ i _ Hi eq_refl Hle) as [F1 F2]. rewrite F1, F2. reflexivity.
   - apply andb_prop in Hwl as [Ha Hwl]. destruct h as [[|]|]; try discriminate. inversion Hex0; subst; clear Hex0.
-    unfold base; cbn [ths mp apply_all fold_left].
+    unfold committed; cbn [ths mp apply_all fold_left].
     destruct (find_unique isW _ i _ Hi eq_refl Hle) as [F1 F2]. rewrite F1, F2. reflexivity.
   - inversion Hex0; subst; clear Hex0. cbn [apply_all fold_left].
     apply (base_code_step c i _ _ Hi); auto.
 Qed.
 
-Lemma base_step c ch : Inv c -> base (step c ch) = apply_all (commit_of c ch) (base c).
+Lemma base_step c ch : Inv c -> committed (step c ch) = apply_all (commit_of c ch) (committed c).
 Proof.
   intros HI. unfold SafeKV.step, commit_of. destruct (nth_error (ths c) (tid ch)) as [t|] eqn:Hi; [|reflexivity].
   assert (Hti : tok (mp c) t) by (destruct HI as [Ht _ _ _]; rewrite Forall_forall in Ht; apply Ht; eapply nth_error_In; eauto).
@@ -157,7 +157,7 @@ Proof.
     rewrite (base_exec c (tid ch) t e cd (rest t) ch l' m' t' HI Hi Hwl Ex). destruct e as [| [|] | | |]; reflexivity.
 Qed.
 
-Theorem base_run : forall sched c, Inv c -> base (run c sched) = apply_all (commits methods c sched) (base c).
+Theorem base_run : forall sched c, Inv c -> committed (run c sched) = apply_all (commits methods c sched) (committed c).
 Proof.
   induction sched as [|e s IH]; intros c HI; cbn [SafeKV.run fold_left commits]; [reflexivity|].
   change (fold_left step s (step c e)) with (run (step c e) s).
